@@ -12,12 +12,8 @@ INF = float("inf")
 
 # the documented preconditions as far as the triggers of the listed known findings go
 KNOWN_TRIGGERS = {
-    # cmb_random_std_gamma(shape), cmb_random_std_beta(a, b), cmb_random_beta(a, b, ..): documented for shape > 0, a > 0, b > 0;
-    # Marsaglia-Tsang without the boost is only valid for shape >= 1
-    "std-gamma-shape-below-one": lambda name, p: (name == "std_gamma" and p[0] < 1.0) or
-                                                 (name in ("std_beta", "beta") and (p[0] < 1.0 or p[1] < 1.0)),
-    # cmb_random_dice(a, b): (double)a + x is rounded; for |a| >= 2^33 or so the result can be b + 1
-    "dice-large-offset": lambda name, p: name == "dice" and max(abs(p[0]), abs(p[1])) >= 2 ** 31,
+    # (none at present.  Earlier entries: "std-gamma-shape-below-one" and "dice-large-offset"; both are repaired, their former
+    #  triggers are part of the grid below and their corpus scenarios are regression replays.)
 }
 
 
@@ -56,6 +52,11 @@ def grid():
     add("hypoexponential", [3.0], 0.0, INF)
     add("hyperexponential", [1.0, 2.0, 4.0, 0.25, 0.25, 0.5], 0.0, INF)
     add("hyperexponential", [1.0, 2.0, 4.0, 0.3333, 0.3333, 0.3333], 0.0, INF)   # sum 0.9999: inside the tolerance
+    add("std_gamma", [0.05], 0.0, INF)                    # shape < 1: boosted inside cmb_random_std_gamma (repaired)
+    add("std_gamma", [0.2], 0.0, INF)
+    add("std_gamma", [1.0 / 3.0], 0.0, INF)               # d = shape - 1/3 = 0 in the unrepaired code
+    add("std_gamma", [0.4], 0.0, INF)                     # finite but off the gamma distribution in the unrepaired code
+    add("std_gamma", [0.999], 0.0, INF)
     add("std_gamma", [1.0], 0.0, INF)
     add("std_gamma", [2.5], 0.0, INF)
     add("std_gamma", [30.0], 0.0, INF)
@@ -63,10 +64,13 @@ def grid():
     add("gamma", [0.5, 2.0], 0.0, INF)
     add("gamma", [1.0, 1.0], 0.0, INF)
     add("gamma", [7.5, 0.5], 0.0, INF)
+    add("std_beta", [0.5, 0.5], 0.0, 1.0)
+    add("std_beta", [0.2, 3.0], 0.0, 1.0)
     add("std_beta", [1.0, 1.0], 0.0, 1.0)
     add("std_beta", [2.0, 3.0], 0.0, 1.0)
     add("std_beta", [1.0, 6.0], 0.0, 1.0)
     add("beta", [2.0, 3.0, -1.0, 4.0], -1.0, 4.0)
+    add("beta", [0.25, 3.0, -1.0, 4.0], -1.0, 4.0)
     add("PERT", [1.0, 2.0, 6.0], 1.0, 6.0)
     add("PERT_mod", [1.0, 2.0, 6.0, 2.0], 1.0, 6.0)
     add("PERT_mod", [0.0, 0.5, 10.0, 0.01], 0.0, 10.0)    # lambda -> 0: nearly uniform
@@ -111,6 +115,7 @@ def grid():
     add("dice", [0, 1], 0, 1, "i")
     add("dice", [1000000, 1000005], 1000000, 1000005, "i")
     add("dice", [-1000, 1000], -1000, 1000, "i")
+    add("dice", [2 ** 40, 2 ** 40 + 5], 2 ** 40, 2 ** 40 + 5, "i")   # (double)a + x would round here (repaired)
     for nm in ("loaded_dice", "alias"):
         add(nm, [1.0], 0, 0, "i")
         add(nm, [0.25, 0.25, 0.5], 0, 2, "i")
